@@ -83,7 +83,7 @@ func NewCtx(id, tier string) *Ctx {
 	if s := os.Getenv("VERIF_SEED"); s != "" {
 		c.Seed, _ = strconv.ParseInt(s, 10, 64)
 	}
-	budget := 100 * time.Second
+	budget := 150 * time.Second // quick tier: the schedule checks need about 95 s of it on an idle 16-core machine
 	if tier == "thorough" {
 		budget = 20 * time.Minute
 	}
